@@ -117,6 +117,14 @@ def runSock (prop : String) (f : List String) (obsS : String) : Verdict :=
       ⟨false, obsS, "", some (if buffered then "C07+C13" else "C13", "the sink failed with an error that is not the socket's error (rebuilt: errno lost)"), [kind], false⟩ else
     if (obsS.splitOn ";").any (·.startsWith "decreased") then
       ⟨false, obsS, "", some ("C14", "a counter of the sink decreased (send attempts and their sizes only ever add up)"), [kind], false⟩ else
+    -- a receiver that starts late (`…late`): from its first `R` on it is bound and drained after every call, so
+    -- every emit and flush must succeed
+    let lateBad : Bool := kind.endsWith "late" && (
+      let paired := ops.zip (obsS.splitOn ";")
+      let after := (paired.dropWhile fun (o, _) => o != "R").drop 1
+      after.any fun (o, r) => (o.startsWith "e" || o == "f") && !(((r.splitOn "/").headD "").startsWith "ok"))
+    if lateBad then
+      ⟨false, obsS, "", some ("C13+C14", "the receiver is bound and drained, yet an emit / flush was reported as failed (was the send attempted at all?)"), [kind], false⟩ else
     let obs := obsS.splitOn ";"
     if obs.length ≠ ops.length + 2 && !(obs.any (·.startsWith "stuck")) then badCase else
     let rec go (s : SSt) (ops obs : List String) (mo io : List String) (v : Option Viol)
@@ -270,6 +278,8 @@ def runMt (_prop : String) (f : List String) (obsS : String) : Verdict :=
 /-- ECONNREFUSED injection: the kernel refused some sends of the control socket, so it refused sends
 of the sink's identically prepared socket too; the sink must have reported and counted refusals -/
 def runCr (_prop : String) (_f : List String) (obsS : String) : Verdict :=
+  if obsS.startsWith "redirected" then
+    ⟨true, obsS, obsS, some ("C13", "after a refusal the sink sent to the second address of the list it was built from: " ++ obsS), ["conn-refused"], false⟩ else
   match obsS.splitOn " " with
   | [sinkS, ctlS] =>
     let nums := ((sinkS.drop 4).toString.splitOn ".").map fun x => x.toNat?.getD 0
@@ -288,6 +298,12 @@ def runBig (_prop : String) (_f : List String) (obsS : String) : Verdict :=
   if obsS == "ok" then ⟨true, "ok", "ok", none, ["more-than-4GiB"], false⟩
   else if obsS == "setup-failed" then ⟨true, obsS, obsS, none, ["more-than-4GiB-setup-failed"], false⟩
   else ⟨true, obsS, obsS, some (if obsS == "panic" then "C14+C20" else "C14", "long history on one sink: " ++ obsS), ["more-than-4GiB"], false⟩
+
+/-- send attempts as the kernel saw them (strace) against the sink's counters (C14) -/
+def runStrace (_prop : String) (_f : List String) (obsS : String) : Verdict :=
+  if obsS == "ok" then ⟨true, "ok", "ok", none, ["attempts-by-strace"], false⟩
+  else if obsS == "strace-unavailable" then ⟨true, obsS, obsS, none, ["strace-unavailable"], false⟩
+  else ⟨true, obsS, obsS, some ("C14", "send attempts counted by the kernel differ from the sink's counters: " ++ obsS), ["attempts-by-strace"], false⟩
 
 def runLock (_prop : String) (_f : List String) (obsS : String) : Verdict :=
   if obsS == "ok" then ⟨true, "ok", "ok", none, ["lock-contention"], false⟩
